@@ -138,10 +138,7 @@ func c20cRun(cs c20cCase) (*fw.Violation, *harness.Client) {
 			h.Send(0, srv.RespFrames(id, fs, choice, nil, [][]byte{[]byte(fmt.Sprint("body", i))}, -1)...)
 			return
 		}
-		var splits []int
-		if cs.Split > 0 {
-			splits = []int{cs.Split}
-		}
+		splits := edgeSplits(cs.Split, 1<<20) // RespFrames clamps offsets to the block
 		var chunks [][]byte
 		if cs.BodyLen > 0 || cs.Trailers != "none" {
 			chunks = [][]byte{body}
@@ -308,8 +305,14 @@ func init() {
 			}
 			fields, _ := c20cFields(c20cCase{Items: items, BodyLen: 5})
 			n := len(staticBlock(fields))
-			for off := 1; off < n; off++ {
+			for off := -4; off < n; off++ {
+				if off == 0 {
+					continue
+				}
 				do(c20cCase{Items: items, BodyLen: 5, Trailers: "none", Pos: 1, Split: off})
+				if off < 0 {
+					do(c20cCase{Items: items, BodyLen: 0, Trailers: "none", Pos: 1, Split: off})
+				}
 				// the head ends in a CONTINUATION frame and a trailer section follows: it must still be read as
 				// trailers (a :status in it is malformed, regular fields are fine)
 				if off%3 == 1 || it < 0 {
